@@ -251,3 +251,61 @@ def subst(p, mapping):
 
 def equal(a, b):
     return a is not None and b is not None and freeze(a) == freeze(b)
+
+
+def map_atoms(p, fn):
+    """rebuild polynomial p with every atom a replaced by fn(a) (a polynomial or None = keep);
+    atoms nested inside opaque atoms / inverses are mapped too"""
+    def map_atom(a):
+        r = fn(a)
+        if r is not None:
+            return r
+        if a[0] == "inv":
+            inner = map_atoms(dict(a[1]), fn)
+            if list(inner.keys()) == [ONE]:
+                return p_const(1 / inner[ONE])
+            return p_atom(("inv", freeze(inner)))
+        if a[0] in OPAQUE_CALLS or a[0] == "trunc":
+            args = []
+            for x in a[1:]:
+                args.append(freeze(map_atoms(dict(x), fn)))
+            if a[0] in ("max", "min"):
+                args = sorted(args, key=repr)
+            return p_atom((a[0],) + tuple(args))
+        return p_atom(a)
+    out = {}
+    for m, c in p.items():
+        term = p_const(c)
+        for a in m:
+            term = p_mul(term, map_atom(a))
+        out = p_add(out, term)
+    return out
+
+
+def leaf_atoms(p):
+    """atoms at the leaves (through opaque atoms and inverses)"""
+    out = set()
+    for m in p:
+        for a in m:
+            if a[0] == "inv":
+                out |= leaf_atoms(dict(a[1]))
+            elif a[0] in OPAQUE_CALLS or a[0] == "trunc":
+                for x in a[1:]:
+                    out |= leaf_atoms(dict(x))
+            else:
+                out.add(a)
+    return out
+
+
+def opaque_names(p):
+    """multiset (sorted list) of opaque function names used anywhere in p"""
+    out = []
+    for m in p:
+        for a in m:
+            if a[0] == "inv":
+                out += opaque_names(dict(a[1]))
+            elif a[0] in OPAQUE_CALLS or a[0] == "trunc":
+                out.append(a[0])
+                for x in a[1:]:
+                    out += opaque_names(dict(x))
+    return sorted(out)
